@@ -81,7 +81,7 @@ def parse_fields(rest):
     parts = [p.strip() for p in rest.split(" :: ")]
     pos, kw = [], {}
     for p in parts:
-        m = re.match(r"(requires|ensures|invariant|decreases|iter|invariant_except_break|ensures_loop)\b\s*(.*)$", p, re.S)
+        m = re.match(r"(requires|ensures|invariant|decreases|iter|invariant_except_break|ensures_loop|body)\b\s*(.*)$", p, re.S)
         if m:
             kw[m.group(1)] = m.group(2).strip()
         else:
@@ -388,6 +388,34 @@ def find_nested_fn(toks, lo, hi, name):
         k += 1
     return None
 
+def recv_start(toks, k):
+    """toks[k] is the '.' starting a method call; return index of first token of the receiver postfix chain."""
+    r = k
+    while True:
+        p_ = toks[r - 1]
+        if p_.kind == "ident" or p_.text in (".", "::", "?"):
+            if p_.kind == "ident" and p_.text in ("if", "let", "return", "in", "match", "while", "else", "mut"):
+                break
+            r -= 1
+        elif p_.text in (")", "]"):
+            d_ = 0
+            q = r - 1
+            while True:
+                if toks[q].text in (")", "]"):
+                    d_ += 1
+                elif toks[q].text in ("(", "["):
+                    d_ -= 1
+                    if d_ == 0:
+                        break
+                q -= 1
+            r = q
+        elif p_.text == "&" :
+            r -= 1
+            break
+        else:
+            break
+    return r
+
 # ---------------------------------------------------------------------------------------------
 
 class Emitter:
@@ -658,6 +686,52 @@ def instantiate_fn(fs, item, em):
                     k += 1
                 if not found:
                     degraded.append("%s rule: occurrence %d not found" % (rule, n))
+            elif rule == "collect_result":
+                # X.iter().cloned().map(F).collect::<Result<Vec<T>, E>>()?   (R-collect-result)
+                cnt = 0
+                found = False
+                k = lo
+                while k + 12 < hi:
+                    tt = [toks[k + j].text for j in range(0, 9)]
+                    if tt[:9] == [".", "iter", "(", ")", ".", "cloned", "(", ")", "."] and toks[k + 9].text == "map" and toks[k + 10].text == "(":
+                        cnt += 1
+                        if cnt == max(n, 1):
+                            r = recv_start(toks, k)
+                            recv = text[toks[r].start:toks[k - 1].end]
+                            mclose = match_close(toks, k + 10)
+                            fexpr = text[toks[k + 11].start:toks[mclose - 1].end]
+                            # .collect::<...>()?
+                            j = mclose + 1
+                            if not (toks[j].text == "." and toks[j + 1].text == "collect"):
+                                raise GenError("%s: collect_result rule: .collect expected" % fnkey)
+                            j += 2
+                            if toks[j].text == "::":
+                                j = angle_skip(toks, j + 1)
+                            if not (toks[j].text == "(" and toks[j + 1].text == ")" and toks[j + 2].text == "?"):
+                                raise GenError("%s: collect_result rule: `()?` expected after collect" % fnkey)
+                            endtok = toks[j + 2]
+                            it = kws.get("iter", "__it")
+                            ety = pos[0] if pos else "_"
+                            inv = []
+                            if kws.get("invariant"):
+                                inv.append("invariant")
+                                for ci, cexpr in enumerate(split_top(kws["invariant"]), 1):
+                                    obid = "%s#cr%dinv%d" % (fnkey, cnt, ci)
+                                    inv.append("    %s,  /*@ob %s*/" % (cexpr, obid))
+                                    em._pending.append({"id": obid, "kind": "loop-invariant", "fn": fnkey,
+                                                        "tags": list(fs.tags), "text": cexpr, "marker": obid})
+                            body_hint = kws.get("body", "")   # reused field: proof text placed at loop body start
+                            rep = ("{ let mut __v: Vec<%s> = Vec::new(); for __x in %s: %s.iter()\n" % (ety, it, recv) +
+                                   "\n".join("                " + x for x in inv) +
+                                   "\n            { %s __v.push(%s(__x.clone())?); } __v }" % (body_hint, fexpr))
+                            edits.append((toks[r].start, endtok.end, rep))
+                            log.append("R-collect-result: `%s.iter().cloned().map(%s).collect::<Result<Vec<_>,_>>()?` rewritten to a loop that pushes `%s(x.clone())?` (line %d)" % (
+                                recv, fexpr, fexpr, item.line0 + text.count("\n", 0, toks[k].start)))
+                            found = True
+                            break
+                    k += 1
+                if not found:
+                    degraded.append("collect_result rule: occurrence %d not found" % n)
             elif rule == "subst":
                 # closed, logged textual rewrite:  rule subst :: "<from>" :: "<to>" :: why
                 frm, to = pos[0].strip('"'), pos[1].strip('"')
